@@ -1,5 +1,5 @@
 """C08 — any sequence of updates keeps files, config and tags in agreement."""
-import re, json, datetime as dt
+import os, re, json, datetime as dt
 import impl_adapter as impl
 import gen, refimpl, projgen, rwcommon, sandbox
 from common import Driver
@@ -50,7 +50,7 @@ def run_history(rng, length, script=None):
         old_heads = [p.git("rev-parse", "HEAD").strip()]
         after_behind = False
         for i in range(length):
-            kind = rng.choice(["update", "update", "update", "update", "fail", "no_tag", "no_commit", "unrelated", "branch", "behind", "behind"])
+            kind = rng.choice(["update", "update", "update", "update", "fail", "no_tag", "no_commit", "unrelated", "branch", "behind", "behind", "commit_rejected"])
             head0 = p.git("rev-parse", "HEAD").strip()
             ncommits0 = int(p.git("rev-list", "--count", "HEAD").strip())
             tags0 = sorted(p.git("tag", "--list").split())
@@ -125,6 +125,27 @@ def run_history(rng, length, script=None):
             if kind == "fail":
                 args = ["update", "--no-fetch", "--set-version", rng.choice([cur_text, "junk", cur_text + "x"])]
                 expect_ok = False
+            elif kind == "commit_rejected" and expect_ok:
+                # git itself refuses the commit (a native pre-commit hook that fails): the update must report failure, and must not
+                # leave a tag for a version that was never committed; afterwards the work tree is reset and the history goes on
+                hookdir = p.git("rev-parse", "--git-path", "hooks").strip()
+                hookdir = hookdir if os.path.isabs(hookdir) else os.path.join(p.dir, hookdir)
+                os.makedirs(hookdir, exist_ok=True)
+                hp = os.path.join(hookdir, "pre-commit")
+                with open(hp, "w") as f:
+                    f.write("#!/bin/sh\necho 'release checklist not done' >&2\nexit 1\n")
+                os.chmod(hp, 0o755)
+                code, out, exc = sandbox.run_cli(args, p.dir)
+                os.unlink(hp)
+                head1 = p.git("rev-parse", "HEAD").strip()
+                tags1 = sorted(p.git("tag", "--list").split())
+                step.update(args=args, exit=code, tags=tags1)
+                case["steps"].append(step)
+                p.git("reset", "-q", "--hard", "HEAD")
+                if code == 0 or head1 != head0 or tags1 != tags0:
+                    return pr, case, ("step %d: git refused the commit (failing native pre-commit hook) but `bumpver %s` exited %s, HEAD moved: %s, new tags %r"
+                                      % (i, " ".join(args), code, head1 != head0, sorted(set(tags1) - set(tags0))))
+                continue
             elif kind == "no_tag":
                 args.append("--no-tag-commit")
             elif kind == "no_commit":
